@@ -48,6 +48,9 @@ type scope struct {
 
 	// State
 	disposed int32 // atomic
+
+	// done is closed when Close has completed
+	done chan struct{}
 }
 
 // newUninitializedScope creates a scope without running the scope initialization functions.
@@ -67,6 +70,7 @@ func newUninitializedScope(rootProvider *provider, parent *scope, ctx context.Co
 		instances:    make(map[instanceKey]any, 8), // Pre-size for typical usage
 		disposables:  make([]Disposable, 0, 4),
 		children:     make(map[*scope]struct{}, 2),
+		done:         make(chan struct{}),
 	}
 
 	ctx = context.WithValue(ctx, scopeContextKey{}, s)
@@ -298,6 +302,10 @@ func (s *scope) Close() error {
 		if err := child.Close(); err != nil {
 			errs = append(errs, fmt.Errorf("failed to close child scope: %w", err))
 		}
+
+		// The child may be in the middle of being closed by someone else (its
+		// context watcher): its disposal must be complete before ours starts
+		<-child.done
 	}
 
 	// Dispose all disposable scoped instances in reverse order
@@ -336,6 +344,7 @@ func (s *scope) Close() error {
 	s.instances = nil
 	s.instancesMu.Unlock()
 
+	close(s.done)
 	verifEvent("C_ret", s)
 	if len(errs) > 0 {
 		return &DisposalError{
